@@ -153,7 +153,7 @@ class Interp:
         if isinstance(v, SSeq):
             return mk_bool(z3.Length(v.t) > 0)
         if isinstance(v, SView):
-            return mk_bool(ops.zi(v.ln) > 0)
+            return True if v.pre else mk_bool(ops.zi(v.ln) > 0)
         if isinstance(v, (PList, PBytearray, PBytes, tuple)):
             return len(seq_items(v)) > 0
         if isinstance(v, PDict):
@@ -325,7 +325,7 @@ class Interp:
         if op == '+' and isinstance(cur, SView) and cur.kind in ('list', 'bytearray'):
             r = ops.seq_concat(self, cur, self.models.coerce_iter_for_extend(self, cur, val))
             if isinstance(r, SView):
-                cur.arr, cur.off, cur.ln = r.arr, r.off, r.ln
+                cur.arr, cur.off, cur.ln, cur.pre = r.arr, r.off, r.ln, r.pre
                 return cur
             return r
         if op == '+' and isinstance(cur, SSeq) and cur.kind in ('list', 'bytearray'):
@@ -636,7 +636,7 @@ class Interp:
         spec: dict(invariant=[expr strings], havoc=callable(I, fr) -> None that re-binds every
         variable / field the loop may modify to fresh symbolic values, variant=optional)"""
         if kind != 'while':
-            raise OutOfSubset('invariants on for loops are not supported; use unrolling')
+            return self.for_with_invariant(st, fr, spec, it)
         names = spec['names']
         tag = spec['tag']
         # 1. initiation
@@ -666,6 +666,51 @@ class Interp:
         if variant0 is not None:
             v1 = self.eval_spec(spec['variant'], fr)
             self.obligation('A', '%s/variant' % tag, conj(self, [compare(self, '<', v1, variant0), compare(self, '>=', variant0, 0)]), {})
+        raise PathAbort()
+
+    def for_with_invariant(self, st, fr, spec, it):
+        """`for TARGET in range(a, b)` cut by an invariant Inv(k), a <= k <= b, where the ghost name spec['index'] is the
+        number of the next iteration.  Obligations: Inv(a); for an arbitrary k with Inv(k) and k < b the body (with
+        TARGET = k) establishes Inv(k + 1) and spec['iteration_post']; after the loop Inv(b) may be assumed."""
+        rng = getattr(it, 'range_val', None)
+        if rng is None or rng.step != 1:
+            raise OutOfSubset('loop invariants are supported for `for x in range(a, b)` only')
+        if not isinstance(st.target, ast.Name):
+            raise OutOfSubset('for-loop invariant: target must be a name')
+        tag, kname = spec['tag'], spec.get('index', 'k')
+        start, stop = rng.start, rng.stop
+        stop_eff = self.models.ite(self, self.truth(compare(self, '<', stop, start)), start, stop) if (is_sym_any(start) or is_sym_any(stop)) else max(start, stop)
+        fr.vars[kname] = start
+        for i, inv in enumerate(spec['invariant']):
+            self.obligation('A', '%s/init/%d' % (tag, i), self.eval_spec(inv, fr), {'inv': inv})
+        assigned = _assigned_in(st.body)
+        missing = [n for n in assigned['names'] if n not in spec['names'] and n != st.target.id]
+        if missing:
+            raise EngineError('loop %s assigns %s not listed in havoc' % (tag, missing))
+        k = self.fresh_int(tag + '!k')
+        self.path.assume(self.spec_bool(conj(self, [self.truth(compare(self, '<=', start, k)), self.truth(compare(self, '<=', k, stop_eff))])))
+        fr.vars[kname] = k
+        spec['havoc'](self, fr)
+        for inv in spec['invariant']:
+            self.path.assume(self.spec_bool(self.eval_spec(inv, fr)))
+        if not self.decide(compare(self, '<', k, stop)):
+            # loop finished: Inv(stop) holds; the target keeps its last value when at least one iteration ran
+            if self.decide(compare(self, '>', stop, start)):
+                fr.assign(st.target.id, binop(self, '-', stop, 1))
+            self.exec_block(st.orelse, fr)
+            return
+        fr.assign(st.target.id, k)
+        try:
+            self.exec_block(st.body, fr)
+        except _Break:
+            return
+        except _Continue:
+            pass
+        fr.vars[kname] = binop(self, '+', k, 1)
+        for name, expr in spec.get('iteration_post', []):
+            self.obligation('P', '%s/iteration/%s' % (tag, name), self.eval_spec(expr, fr), {'expr': expr})
+        for i, inv in enumerate(spec['invariant']):
+            self.obligation('A', '%s/preserve/%d' % (tag, i), self.eval_spec(inv, fr), {'inv': inv})
         raise PathAbort()
 
     # ------------------------------------------------------------------ obligations / spec
@@ -737,7 +782,9 @@ class Interp:
                 if st['k'] > self.cfg.get('unroll_for', 4096):
                     raise Budget('range iteration too long')
                 return cur
-            return GenIter(nxt)
+            g = GenIter(nxt)
+            g.range_val = v
+            return g
         if isinstance(v, SView):
             return self.get_iter(tuple(ops.view_items(self, v)))
         if isinstance(v, SSeq):
@@ -1378,6 +1425,10 @@ class Interp:
     # strings
     def str_percent(self, fmt, arg):
         return self.models.str_percent(self, fmt, arg)
+
+
+def is_sym_any(v):
+    return isinstance(v, SYM_SCALARS)
 
 
 def _sub_returns(returns, name):
